@@ -2,7 +2,7 @@
    optional diff text, scan flag, -E map, --enable/--disable, oracle tables;
    the model's prediction of `list` and of the validation run, and the
    comparison with what the implementation did. *)
-From BW Require Export Context Case.
+From BW Require Export Context Case Lang.
 
 Record rcase := {
   rc_files : list rfile;
@@ -44,7 +44,7 @@ Definition model_run (c : rcase) : vresult :=
 Definition list_agrees_c (cr : cresult) (o : lobs) : bool :=
   if cr_panic cr then match o with LObsPanic => true | _ => false end
   else match cr_errs cr with
-       | _ :: _ => match o with LObsErr e => existsb (N.eqb e) (cr_errs cr) | _ => false end
+       | _ :: _ => match o with LObsErr e => existsb (N.eqb e) (cr_errs cr) || (e =? E_UNKNOWN) | _ => false end
        | [] => match o with
                | LObsList bs => mset_eqb plblock_eqb (list_of_context (cr_ctx cr)) bs
                                 && per_file_order_eqb (list_of_context (cr_ctx cr)) bs
@@ -90,7 +90,12 @@ Definition mkrfile p t sp ex al ig : rfile :=
 (* walked / readable given separately (hidden or git-ignored files named in a diff) *)
 Definition mkrfile' p t sp walked readable al ig : rfile :=
   {| rf_path := p; rf_text := t; rf_spans := sp; rf_exists := walked; rf_readable := readable; rf_allow := al; rf_ignore := ig |}.
+(* the kind of every span is decided by the model (Lang.v) from the file name and the -E map *)
+Definition rekind_file (ext : list (str * str)) (f : rfile) : rfile :=
+  {| rf_path := rf_path f; rf_text := rf_text f;
+     rf_spans := rekind ext (rf_path f) (rf_text f) (rf_spans f);
+     rf_exists := rf_exists f; rf_readable := rf_readable f; rf_allow := rf_allow f; rf_ignore := rf_ignore f |}.
 Definition mkrcase fs d scan ext en dis tb cd : rcase :=
-  {| rc_files := fs; rc_diff := d; rc_scan := scan; rc_ext := ext; rc_enabled := en; rc_disabled := dis;
+  {| rc_files := map (rekind_file ext) fs; rc_diff := d; rc_scan := scan; rc_ext := ext; rc_enabled := en; rc_disabled := dis;
      rc_tables := tb; rc_cdiff := cd |}.
 Definition mklc (line : N) (r : option (list (N * N))) : lchange := {| lc_line := line; lc_ranges := r |}.
